@@ -54,7 +54,7 @@ func c02Plan(seed int64, tier string) []core.Case {
 	// fast as possible with deep read-ahead, so that redirections of the
 	// read-ahead goroutine meet it in every phase of its loop; a call that
 	// never returns shows as a runtime-detected deadlock (plain build).
-	nst := 8
+	nst := 12
 	if tier == "thorough" {
 		nst = 64
 	}
